@@ -2,6 +2,7 @@ import Lean.Data.Json
 import GBS.Model.Gen
 import GBS.Model.Mixture
 import GBS.Model.SysGen
+import GBS.Model.FF
 /-! JSON codecs for the line protocol (driver only; not part of the verified model). -/
 open Lean
 namespace GBS.Driver
